@@ -66,6 +66,10 @@ def run(ctx):
         cases.append((0, ["/" + p], [["push", ["url", "http://h/" + p]]]))
         if not p.startswith("/"):
             cases.append((0, ["/" + p], [["push", ["url", "x:/" + p]]]))        # ... and after
+        if not p.startswith("/") and len(p) < 14:
+            # an authority is an authority even when its host is empty (userinfo or port only) or it has userinfo and port
+            for pre in ("foo://user@/", "//:8080/", "foo://u:p@:8042/", "x://@/", "http://u:p@h:81/", "//[::1]:1/"):
+                cases.append((0, ["/" + p], [["push", ["url", pre + p]]]))
         cases.append((0, ["/x/" + p], [["push", ["url", "/x/" + p]]]))          # no authority: kept verbatim
         cases.append((0, ["/y/" + p], [["push", ["url", "x:/y/" + p]]]))
         cases.append((1, ["/" + p], [["push", ["build", "http", "", None, None, "h", None, "/" + p, None, "", "", False]]]))
